@@ -73,3 +73,35 @@ Print Assumptions C12_chain_never_revisits.
 Theorem C12_terminates : forall fops, resolve_core fops <> inr None.
 Proof. exact resolve_core_total. Qed.
 Print Assumptions C12_terminates.
+
+From SV Require Import Resolve.Op Resolve.Apply Resolve.Process Resolve.Spec Resolve.Extend Resolve.Earliest.
+Local Close Scope Z_scope.
+
+(* a commitment is consumed at most once: no two applied recover/deactivate operations reveal the same commitment, no two applied updates reveal the same commitment; no hypothesis on the operation list *)
+Theorem C12_applied_reveals_nodup :
+  forall (fops : list aop) (c0 : aop) (s : state) (ap : list aop),
+         resolve_core fops = inr (Some (c0, s, ap)) ->
+         NoDup (map reveal_c (filter is_full ap)) /\ NoDup (map reveal_c (filter (is_ty Update) ap)).
+Proof. exact applied_reveals_nodup. Qed.
+Print Assumptions C12_applied_reveals_nodup.
+
+(* the same for what Resolve returns from the stores under any options *)
+Theorem C12_applied_reveals_nodup_store :
+  forall (pub unpub : list aop) (opts : ropts) (c0 : aop) (s : state) (ap : list aop),
+         resolve_full pub unpub opts = inr (Some (c0, s, ap)) ->
+         NoDup (map reveal_c (filter is_full ap)) /\ NoDup (map reveal_c (filter (is_ty Update) ap)).
+Proof. exact applied_reveals_nodup_store. Qed.
+Print Assumptions C12_applied_reveals_nodup_store.
+
+(* an applied operation reveals the commitment in force, which was not consumed before in its chain, and commits neither to the commitment it reveals nor to one consumed before *)
+Theorem C12_applied_consumes_fresh :
+  forall (fops : list aop) (c0 : aop) (s : state) (ap : list aop) 
+           (o : aop) (sel : state -> Z) (st : state) (consumed : list Z) 
+           (comp : aop -> Prop),
+         resolve_core fops = inr (Some (c0, s, ap)) ->
+         applied_at c0 ap o sel st consumed comp ->
+         reveal_c o = sel st /\
+         next_c o <> reveal_c o /\
+         ~ In (reveal_c o) consumed /\ (next_c o = 0%Z \/ ~ In (next_c o) consumed).
+Proof. exact applied_consumes_fresh. Qed.
+Print Assumptions C12_applied_consumes_fresh.
